@@ -190,6 +190,8 @@ func escCheck(r *hx.Result, in, want []byte, src string) {
 
 func cmdEscape(f hx.Flags, r *hx.Result) {
 	rng := hx.Rand(9)
+	// first of all, before anything else has been escaped in this process: repeated keys through pooled buffers
+	escLayouts(r, rng, f.Int("layoutrounds", 1500)/2)
 	table := escTable{}
 	var cases []escCase
 	maxWin := 0
@@ -300,6 +302,7 @@ func cmdEscape(f hx.Flags, r *hx.Result) {
 		r.Extra["sweep_strings"] = total
 	}
 
+	escLayouts(r, rng, f.Int("layoutrounds", 1500))
 	// boundary alphabet (class edges) sampled at length <= 6 and long random strings through the window transducer
 	edges := []byte{}
 	for _, bs := range escClassBytes {
@@ -331,6 +334,63 @@ func cmdEscape(f hx.Flags, r *hx.Result) {
 		escCheck(r, in, want, "window-transducer")
 	}
 }
+
+// escLayouts pushes a small pool of escape-class strings again and again, as keys and as values, through both
+// layouts (pooled buffers, changing offsets): the escaper must be a pure function of its input, whatever came before.
+func escLayouts(r *hx.Result, rng *rand.Rand, rounds int) {
+	pool := []string{"k", "a\"b", "nl\nkey", "tab\t", "bs\\", "ctl\x01", "bad\xff", "ünï", "\xe2\x82", "q\"q\"", "plain_key", "\u2028"}
+	jl := &log.JSONLayout{BaseLayout: log.BaseLayout{FileLineLength: 48}}
+	tl := &log.TextLayout{BaseLayout: log.BaseLayout{FileLineLength: 48}}
+	for i := 0; i < rounds; i++ {
+		n := 1 + rng.Intn(5)
+		var fields []log.Field
+		var keys, vals []string
+		for j := 0; j < n; j++ {
+			k, v := pool[rng.Intn(len(pool))], pool[rng.Intn(len(pool))]
+			keys, vals = append(keys, k), append(vals, v)
+			fields = append(fields, log.String(k, v))
+		}
+		e := &log.Event{Level: log.InfoLevel, Tag: "_t", File: strings.Repeat("p/", rng.Intn(20)) + "f.go", Line: i, Fields: fields}
+		jb := jl.ToBytes(e)
+		tb := tl.ToBytes(e)
+		r.Eval(1)
+		desc := map[string]any{"keys": keys, "values": vals, "round": i}
+		var dec map[string]json.RawMessage
+		line := bytes.TrimSuffix(jb, []byte("\n"))
+		if !json.Valid(line) || !utf8.Valid(line) || json.Unmarshal(line, &dec) != nil {
+			r.Violate("layout-escape-mismatch", desc, "JSON line with escaped keys/values is not valid: %.200q", line)
+			continue
+		}
+		// expected tail of the JSON line
+		var sb strings.Builder
+		for j := range keys {
+			sb.WriteByte(',')
+			sb.WriteByte('"')
+			sb.Write(realEscapeRef(keys[j]))
+			sb.WriteString(`":"`)
+			sb.Write(realEscapeRef(vals[j]))
+			sb.WriteByte('"')
+		}
+		sb.WriteByte('}')
+		if !bytes.HasSuffix(line, []byte(sb.String())) {
+			r.Violate("layout-escape-mismatch", desc, "JSON line ends %.200q, want %.200q", line[max(0, len(line)-len(sb.String())-5):], sb.String())
+		}
+		var tbld strings.Builder
+		for j := range keys {
+			tbld.WriteString("||")
+			tbld.Write(realEscapeRef(keys[j]))
+			tbld.WriteByte('=')
+			tbld.Write(realEscapeRef(vals[j]))
+		}
+		tbld.WriteByte('\n')
+		if !strings.HasSuffix(string(tb), strings.TrimPrefix(tbld.String(), "||")) {
+			r.Violate("layout-escape-mismatch", desc, "text line ends %.200q, want %.200q", tb[max(0, len(tb)-tbld.Len()-5):], tbld.String())
+		}
+	}
+}
+
+// realEscapeRef is the escaping of s computed on a fresh buffer by the function already validated above.
+func realEscapeRef(s string) []byte { return realEscape([]byte(s)) }
 
 func tern(c bool, a, b string) string {
 	if c {
